@@ -306,7 +306,13 @@ Section Tracker.
   | CLoad (fail : bool)                             (* LoadCacheFromDataplane; fail: Load() returns an error *)
   | CUpd (loadfail : bool) (tr : list (N * V * bool))   (* ApplyUpdatesOnly; tr: Update(k,v) calls and whether they succeeded *)
   | CDel (loadfail : bool) (tr : list (N * bool))       (* ApplyDeletionsOnly; tr: Delete(k) calls; true = nil or ErrNotExists *)
-  | CAll (loadfail : bool) (trd : list (N * bool)) (tru : list (N * V * bool)).  (* ApplyAllChanges *)
+  | CAll (loadfail : bool) (trd : list (N * bool)) (tru : list (N * V * bool))   (* ApplyAllChanges *)
+  (* the same three over a dataplane map that also implements DataplaneBatchedMap (IterBatched path):
+     calls = batches handed to BatchUpdate/BatchDelete and the map's raw answer (n, code),
+     code 0 = nil, 1 = error, 2 = ErrNotExists (ApplyDeletionsOnly then counts the item as done: n+1, nil) *)
+  | CUpdB (loadfail : bool) (calls : list (list (N * V) * (nat * N)))
+  | CDelB (loadfail : bool) (calls : list (list (N * V) * (nat * N)))
+  | CAllB (loadfail : bool) (callsd callsu : list (list (N * V) * (nat * N))).
 
   Definition c_load (fixed fail : bool) (c : cst) : cst * Z :=
     if fail then (c, 1%Z)
@@ -342,6 +348,32 @@ Section Tracker.
     (* ApplyAllChanges appends each phase's error (itself a slice) once: the count is the number of failed phases *)
     (c2, ((if Z.eqb e1 0 then 0 else 1) + (if Z.eqb e2 0 then 0 else 1))%Z).
 
+  (* what IterBatched sees of the map's answer *)
+  Definition adj_resp (del : bool) (r : nat * N) : nat * bool :=
+    if N.eqb (snd r) 0 then (fst r, false)
+    else if del && N.eqb (snd r) 2 then (S (fst r), false)
+    else (fst r, true).
+  Definition adj_calls (del : bool) (calls : list (list (N * V) * (nat * N))) : list (list (N * V) * (nat * bool)) :=
+    map (fun c => (fst c, adj_resp del (snd c))) calls.
+  Definition nerr_of (del : bool) (calls : list (list (N * V) * (nat * N))) : Z :=
+    Z.of_nat (length (filter (fun c => snd (adj_resp del (snd c))) calls)).
+  Definition c_upd_b (fixed loadfail : bool) (calls : list (list (N * V) * (nat * N))) (c : cst)
+    : cst * Z * list (list (N * V) * (nat * bool)) :=
+    let '(c1, e) := c_maybe_load fixed loadfail c in
+    if Z.eqb e 0 then
+      let '(t', shown) := pu_iter_batched batch_size (order_of_calls (adj_calls false calls)) (map snd (adj_calls false calls)) (c_t c1) in
+      (mkc t' (fold_left (fun m kv => set (fst kv) (snd kv) m) (applied_of shown) (c_dp c1)) (c_loaded c1),
+       nerr_of false calls, shown)
+    else (c1, e, []).
+  Definition c_del_b (fixed loadfail : bool) (calls : list (list (N * V) * (nat * N))) (c : cst)
+    : cst * Z * list (list (N * V) * (nat * bool)) :=
+    let '(c1, e) := c_maybe_load fixed loadfail c in
+    if Z.eqb e 0 then
+      let '(t', shown) := pd_iter_batched batch_size (order_of_calls (adj_calls true calls)) (map snd (adj_calls true calls)) (c_t c1) in
+      (mkc t' (fold_left (fun m kv => del (fst kv) m) (applied_of shown) (c_dp c1)) (c_loaded c1),
+       nerr_of true calls, shown)
+    else (c1, e, []).
+
   Definition cstep (fixed : bool) (c : cst) (o : cop) : cst * Z :=
     match o with
     | COp o => (mkc (step fixed (c_t c) o) (c_dp c) (c_loaded c), 0%Z)
@@ -351,6 +383,22 @@ Section Tracker.
     | CUpd lf tr => c_upd fixed lf tr c
     | CDel lf tr => c_del fixed lf tr c
     | CAll lf trd tru => c_all fixed lf trd tru c
+    | CUpdB lf calls => fst (c_upd_b fixed lf calls c)
+    | CDelB lf calls => fst (c_del_b fixed lf calls c)
+    | CAllB lf cd cu =>
+        let '(c1, e1) := fst (c_del_b fixed lf cd c) in
+        let '(c2, e2) := fst (c_upd_b fixed lf cu c1) in
+        (c2, ((if Z.eqb e1 0 then 0 else 1) + (if Z.eqb e2 0 then 0 else 1))%Z)
+    end.
+  (* batches shown to BatchUpdate / BatchDelete by that operation (deletions first for ApplyAllChanges) *)
+  Definition cstep_calls (fixed : bool) (c : cst) (o : cop) : list (list (N * V)) * list (list (N * V)) :=
+    match o with
+    | CUpdB lf calls => ([], map fst (snd (c_upd_b fixed lf calls c)))
+    | CDelB lf calls => (map fst (snd (c_del_b fixed lf calls c)), [])
+    | CAllB lf cd cu =>
+        let r := c_del_b fixed lf cd c in
+        (map fst (snd r), map fst (snd (c_upd_b fixed lf cu (fst (fst r)))))
+    | _ => ([], [])
     end.
   Definition cst0 : cst := mkc st0 [] false.
 End Tracker.
@@ -360,7 +408,7 @@ Arguments mk {V}. Arguments AD {V}. Arguments ND {V}. Arguments DU {V}. Argument
 Arguments DesSet {V}. Arguments DesDel {V}. Arguments DesDelAll {V}. Arguments DpSet {V}.
 Arguments DpDel {V}. Arguments DpDelAll {V}. Arguments Replace {V}. Arguments IterUpd {V}. Arguments IterDel {V}.
 Arguments mkc {V}. Arguments c_t {V}. Arguments c_dp {V}. Arguments c_loaded {V}.
-Arguments COp {V}. Arguments ExtSet {V}. Arguments ExtDel {V}. Arguments CLoad {V}. Arguments CUpd {V}. Arguments CDel {V}. Arguments CAll {V}.
+Arguments COp {V}. Arguments ExtSet {V}. Arguments ExtDel {V}. Arguments CLoad {V}. Arguments CUpd {V}. Arguments CDel {V}. Arguments CAll {V}. Arguments CUpdB {V}. Arguments CDelB {V}. Arguments CAllB {V}.
 Arguments IterBatchUpd {V}. Arguments IterBatchDel {V}. Arguments DesSetMany {V}.
 
 (* ---------- concrete instance used by the correspondence run: V = N ---------- *)
@@ -408,10 +456,13 @@ Definition observe (kd : kind) (univ : list N) (c : cst N) (calls : list (list (
       (match kd with KSet => len_upper_bound N s | _ => (-1)%Z end)
       calls (kv_sort (c_dp c)) nerr.
 
-Definition shown_calls (s : st N) (o : cop N) : list (list (N * N)) :=
+Definition zero_vals (b : list (N * N)) : list (N * N) := map (fun kv => (fst kv, 0)) b.
+Definition shown_calls (fixed : bool) (kd : kind) (c : cst N) (o : cop N) : list (list (N * N)) :=
   match o with
-  | COp (IterBatchUpd calls) => map fst (step_calls N s (IterBatchUpd calls))
-  | COp (IterBatchDel calls) => map (fun c => map (fun kv => (fst kv, 0)) (fst c)) (step_calls N s (IterBatchDel calls))
+  | COp (IterBatchUpd calls) => map fst (step_calls N (c_t c) (IterBatchUpd calls))
+  | COp (IterBatchDel calls) => map (fun c => zero_vals (fst c)) (step_calls N (c_t c) (IterBatchDel calls))
+  | CUpdB _ _ | CDelB _ _ | CAllB _ _ _ =>
+      let '(d, u) := cstep_calls N (veq_of kd) fixed c o in map zero_vals d ++ u
   | _ => []
   end.
 
@@ -419,7 +470,7 @@ Fixpoint run_obs (fixed : bool) (kd : kind) (univ : list N) (c : cst N) (ops : l
   match ops with
   | [] => []
   | o :: ops' => let '(c', e) := cstep N (veq_of kd) fixed c o in
-                 observe kd univ c' (shown_calls (c_t c) o) e :: run_obs fixed kd univ c' ops'
+                 observe kd univ c' (shown_calls fixed kd c o) e :: run_obs fixed kd univ c' ops'
   end.
 
 (* ---------- equality of observations ---------- *)
